@@ -247,6 +247,7 @@ int main(int argc, char** argv)
     for (int inc = 1; inc <= ninc; ++inc)
     {
         int threads = 1 + (int) R.below(4);
+        if (R.chance(1, 8)) threads = R.chance(1, 2) ? 8 : 16;    // occasionally as many workers as the machine has cores
         char const* sched = SCHED[R.below(8)];
         bool with_main = R.chance(1, 2);
         int rv = with_main ? (int) R.below(100) : 0;
